@@ -128,6 +128,7 @@ type VC struct {
 	lemmaName   string
 	axiomsDone  map[string]bool
 	cellFns     map[string]*ssa.Function
+	recovers    bool
 	lemmasUsed  map[string]bool
 }
 
